@@ -346,6 +346,13 @@ pub struct GradCase {
     /// 2: the first operand is such a clone of the second; 0: independent operands. `same_operand` wins.
     #[serde(default)]
     pub detached_clone: u8,
+    /// Some(dims): the second operand is `first.reshape(dims)` - a VIEW that shares the first operand's storage
+    /// (`leaves[1]` is ignored); `dims` may equal the first operand's dimensions. `same_operand` wins.
+    #[serde(default)]
+    pub view_of_first: Option<Vec<usize>>,
+    /// the two operands change places (the view comes first)
+    #[serde(default)]
+    pub swap_operands: bool,
 }
 
 impl GradCase {
@@ -355,7 +362,7 @@ impl GradCase {
     pub fn sig(&self, kind: &str, operand: usize) -> String {
         format!("{}:{}:{}:operand{}", kind, op_param_class(&self.op), sig_class(&self.op, &self.dims()), operand)
     }
-    fn history(&self) -> History {
+    pub fn history(&self) -> History {
         let mut steps: Vec<Step> = self.leaves.iter().map(|l| Step::Leaf { dims: l.dims.clone(), vals: l.vals.clone(), tracked: l.tracked }).collect();
         let n = self.leaves.len();
         let mut args: Vec<usize> = (0..n).collect();
@@ -367,10 +374,16 @@ impl GradCase {
             steps.push(Step::Clone { h: src });
             steps.push(Step::Flag { h: n, how: FlagOp::Untracked });
             args[1 - src] = n;
+        } else if let (Some(vd), true) = (&self.view_of_first, n >= 2) {
+            steps.push(Step::Apply(ApplySpec { op: OpKind::Reshape(vd.clone()), args: vec![0] }));
+            args[1] = n;
+        }
+        if self.swap_operands && args.len() >= 2 {
+            args.swap(0, 1);
         }
         let uses = self.uses.max(1);
         // first slot of the operation results
-        let b = steps.iter().filter(|s| matches!(s, Step::Leaf { .. } | Step::Clone { .. })).count();
+        let b = steps.iter().filter(|s| matches!(s, Step::Leaf { .. } | Step::Clone { .. } | Step::Apply(_))).count();
         for _ in 0..uses {
             steps.push(Step::Apply(ApplySpec { op: self.op.clone(), args: args.clone() }));
         }
